@@ -142,7 +142,7 @@ class Sensor(BaseGeo, BaseDisplayRepr):
     @handedness.setter
     def handedness(self, val):
         """Set Sensor handedness in the local object coordinates."""
-        if val not in {"right", "left"}:
+        if not (isinstance(val, str) and val in {"right", "left"}):
             raise MagpylibBadUserInput(
                 "Sensor `handedness` must be either `'right'` or `'left'`"
             )
